@@ -633,7 +633,7 @@ PROPS = {
         "not_decided": "get_ftype's string logic, compressed stream layer semantics, option parsing values, round trip of -b / -B (see C14)",
     },
     "C20": {
-        "rules": [lambda prog, tier: stdio.run(prog)],
+        "rules": [lambda prog, tier: stdio.run(prog), lambda prog, tier: stdio.run_restore(prog)],
         "technique": "call-graph effect analysis over the type-resolved AST/CFG export (clang 14 libTooling): "
                      "stdio-sink census + liveness pruning + returning-path reachability from installed-header functions",
         "explanation": "Decides the whole effect clause of C20 statically: every reference to stdout/stderr and every call of an "
